@@ -15,7 +15,7 @@ use vcore::{compile, Check, Labels, Outcome, Plan, Project, Stats, Step, Tape, T
 pub struct C12;
 pub const CHECK: C12 = C12;
 pub fn plan(t: Tier) -> Plan {
-    Plan::new(t.pick(2_500, 50_000), t.pick(3400, 4600))
+    Plan::new(t.pick(10_000, 100_000), t.pick(3400, 4600))
 }
 
 #[derive(Clone, Debug, Serialize, Deserialize, PartialEq)]
